@@ -356,6 +356,11 @@ def finish(run, level, rule, evaluations, distinct_nontrivial, exhaustive, extra
         return EXIT_OK
     for k in run.known:
         print("KNOWN-FINDING: property=%s %s" % (run.pid, k))
+    if run.cov.get("model_drift"):
+        # diagnostics of the implementation-shaped layer: the code no longer does things the way Decoder.tla / Objects!EncodeText
+        # describe them; the properties are judged by the property layer alone, so this is information, not an alarm
+        print("MODEL-DRIFT: property=%s %d diagnostics (not a violation), e.g. %s" % (run.pid, run.cov["model_drift"],
+              (run.cov.get("model_drift_samples") or [""])[0][:200]))
     rc = EXIT_OK
     for v in run.violations[:20]:
         print("VIOLATION property=%s replay=%s" % (run.pid, v["replay"]))
